@@ -194,8 +194,13 @@ def _gc(keep):
         return
     ents = [e for e in ents if e != keep]
     ents.sort(key=lambda e: os.path.getmtime(os.path.join(CACHE_ROOT, e)), reverse=True)
-    for e in ents[2:]:
-        shutil.rmtree(os.path.join(CACHE_ROOT, e), ignore_errors=True)
+    # a build may be in use by a check that started hours ago (every start touches its directory): only builds
+    # that nobody has asked for in a long while go, or the oldest ones when there are really many (30 MB each)
+    now = time.time()
+    for i, e in enumerate(ents):
+        age = now - os.path.getmtime(os.path.join(CACHE_ROOT, e))
+        if age > 6 * 3600 or i >= 40:
+            shutil.rmtree(os.path.join(CACHE_ROOT, e), ignore_errors=True)
 
 
 def ensure(flavours=("asan", "plain")):
